@@ -46,6 +46,16 @@ HttpTags(h, ok, causes) ==
        \cup (IF h.status = 400 /\ causes # {} /\ h.code \notin UNION {NutCodes(c) : c \in causes}
              THEN {<<"C20", "error-code-does-not-name-an-actual-cause">>} ELSE {})
 
+\* storage or Lightning failures are reported generically: the text of the failing call's error (the harness injects errors
+\* with a marker text) never reaches the client, and the refusal still has the {detail, code} body
+LeakTags(h) == IF h.used /\ h.leak THEN {<<"C20", "internal-detail-in-error-body">>} ELSE {}
+FaultHttpTags(h) ==
+  IF ~h.used THEN {}
+  ELSE LeakTags(h)
+       \cup (IF h.status \notin {200, 400} THEN {<<"C20", "status-neither-200-nor-400">>} ELSE {})
+       \cup (IF h.status = 400 /\ ~h.errbody THEN {<<"C20", "error-body-is-not-detail-code">>} ELSE {})
+       \cup (IF h.status = 200 /\ h.shape # "ok" THEN {<<"C20", "response-shape:" \o h.shape>>} ELSE {})
+
 \* NUT-19: e.a.variant in identical / onebyte / otherpath / trailing / failed
 ReplayTags(e) ==
   IF e.a.skipped THEN {}
